@@ -77,7 +77,7 @@ type c12Op struct {
 
 type c12Scn struct {
 	Name          string
-	HaveLimited   bool     // a limited connection exists at the start
+	HaveLimited   bool     // a relayed connection exists at the start (Limited unless RelayNoLimits)
 	HaveDirect    bool     // a direct connection exists at the start
 	Addrs         []string // addresses known for the peer (scripts: every dial succeeds when completed)
 	Complete      []string // addresses whose dial completes successfully (others hang)
@@ -89,6 +89,7 @@ type c12Scn struct {
 	LimitedCloses bool
 	Limited2      bool  // a second limited connection is admitted at some point
 	MustSucceed   []int // baseline (non-vacuity): these ops return a connection in every complete execution
+	RelayNoLimits bool  // the relay imposes no limits: relayed connections are proxied but report Limited == false
 }
 
 type c12OpRun struct {
@@ -109,6 +110,9 @@ func c12Body(sc c12Scn) func(x *vs.Exec) {
 		s := x.S
 		env := fxNewEnv(0, 0, WithMultiaddrResolver(c12DNS()))
 		P := fxID("P")
+		if sc.RelayNoLimits {
+			env.Relay.limited = false
+		}
 		for _, a := range sc.Addrs {
 			env.PS.AddAddr(P.ID, ma.StringCast(a), peerstore.PermanentAddrTTL)
 		}
@@ -379,6 +383,8 @@ func c12Scenarios(thorough bool) []c12Scn {
 		{Name: "plain dial then force-direct dial join one worker: relay succeeds, the shared direct dial fails", Addrs: []string{relay, c12TCP1}, Complete: []string{relay}, Fail: []string{c12TCP1}, Ops: []c12Op{{Kind: "dial"}, {Kind: "dial", ForceDirect: true}}, Ticks: []time.Duration{501 * time.Millisecond}},
 		{Name: "no-dial stream without any connection", Addrs: []string{c12TCP1}, Complete: []string{c12TCP1}, Ops: []c12Op{{Kind: "stream", NoDial: true}}},
 		{Name: "plain stream, peer reachable only through relay", Addrs: []string{relay}, Complete: []string{relay}, Ops: []c12Op{plain}},
+		// relayed is not the same as Limited: a relay without limits gives proxied connections with Limited == false
+		{Name: "force-direct dial with a relayed conn that is not Limited (relay without limits) and only a relay address", HaveLimited: true, RelayNoLimits: true, Addrs: []string{relay}, Complete: []string{relay}, Ops: []c12Op{fdDial}},
 		// addresses that are relay addresses only after resolution (the force-direct filter has to look at what is DIALLED)
 		{Name: "force-direct dial with limited conn, peerstore holds only a dnsaddr name that resolves to a relay address", HaveLimited: true, Addrs: []string{c12DNSRelayOnly}, Complete: []string{relayR}, Ops: []c12Op{fdDial}},
 		{Name: "plain dial, dnsaddr name resolves to a relay address only (baseline: the resolved relay address is dialled)", Addrs: []string{c12DNSRelayOnly}, Complete: []string{relayR}, Ops: []c12Op{{Kind: "dial"}}, MustSucceed: []int{0}},
@@ -391,7 +397,6 @@ func c12Scenarios(thorough bool) []c12Scn {
 			c12Scn{Name: "waiter with limited conn, limited closes", HaveLimited: true, Ops: []c12Op{plain}, LimitedCloses: true},
 			c12Scn{Name: "force-direct and plain dial, relay+tcp", Addrs: []string{relay, c12TCP1}, Complete: []string{relay, c12TCP1}, Ops: []c12Op{{Kind: "dial", ForceDirect: true}, {Kind: "dial"}}},
 			c12Scn{Name: "plain dial then force-direct dial join one worker, dnsaddr name resolves to relay + tcp: relay succeeds, the shared direct dial fails", Addrs: []string{c12DNSBoth}, Complete: []string{relayR}, Fail: []string{c12TCPResolved}, Ops: []c12Op{{Kind: "dial"}, fdDial}, Ticks: []time.Duration{501 * time.Millisecond}},
-			c12Scn{Name: "force-direct and plain dial, dnsaddr name resolves to relay + tcp", Addrs: []string{c12DNSBoth}, Complete: []string{relayR, c12TCPResolved}, Ops: []c12Op{fdDial, {Kind: "dial"}}},
 			c12Scn{Name: "force-direct stream and plain stream without any connection, nested dnsaddr name (relay) and dns4 name (tcp)", Addrs: []string{c12DNSNested, c12DNS4Direct}, Complete: []string{relayR, c12TCPResolved}, Ops: []c12Op{{Kind: "stream", ForceDirect: true}, plain}},
 		)
 	}
@@ -417,6 +422,10 @@ func TestVerifC12(t *testing.T) {
 		rp, err := vs.LoadReplay(p)
 		if err != nil {
 			t.Fatal(err)
+		}
+		if rp.Scenario == "" {
+			fmt.Fprintf(os.Stdout, "REPLAY %s is not a replay of the scheduler-driven part\n", p)
+			return
 		}
 		for _, sc := range c12Scenarios(true) {
 			if sc.Name == rp.Scenario {
@@ -454,6 +463,11 @@ func TestVerifC12(t *testing.T) {
 	for i, sc := range scs {
 		left := time.Until(vrep.Deadline())
 		share := left / time.Duration(len(scs)-i)
+		if !vrep.Thorough() {
+			// quick tier: every scenario finishes in a small fraction of its fair share; on a heavily loaded machine a
+			// worker can stall for many seconds, so a scenario may use up to three fair shares before it is capped
+			share = min(3*share, left)
+		}
 		vs.Explore(t, c12Scenario(sc), vs.Config{MaxBound: bound, Deadline: time.Now().Add(share), ShardI: si, ShardN: sn, Property: "C12"}, r)
 	}
 	r.Flush()
